@@ -27,13 +27,17 @@ VARIANTS = [
     B("generate-velocity", F, "        fa = np.fft.fft(sig.values, n=n_factor)\n        points = int(n_factor / 2)\n        assert len(fa) == n_factor\n    else:\n        fa = np.fft.fft(sig.values)\n        points = int(sig.npts / 2)\n    fa_spectrum = fa[range(points)] * sig.dt\n    fa_frequencies = np.arange(points) / (2 * points * sig.dt)\n    return fa_spectrum, fa_frequencies\n\n\ndef calc_fa",
       "        fa = np.fft.fft(sig.values - sig.values[0], n=n_factor)\n        points = int(n_factor / 2)\n        assert len(fa) == n_factor\n    else:\n        fa = np.fft.fft(sig.values)\n        points = int(sig.npts / 2)\n    fa_spectrum = fa[range(points)] * sig.dt\n    fa_frequencies = np.arange(points) / (2 * points * sig.dt)\n    return fa_spectrum, fa_frequencies\n\n\ndef calc_fa", None),
     B("getter-freqs-returns-spectrum", S, "            self.gen_fa_spectrum()\n        return self._fa_freqs\n", "            self.gen_fa_spectrum()\n        return self._fa_spectrum\n", "R-FAS-SIB"),
-    B("inv-no-conj-values", F, "    a[n // 2 + 1:] = np.flip(np.conj(fas[1:]), axis=0)\n    a /= dt\n    s = np.fft.ifft(a)\n    npts = int(2 ** (np.log(n) / np.log(2)))\n    s = s[:npts]\n    return s\n",
-      "    a[n // 2 + 1:] = np.flip(fas[1:], axis=0)\n    a /= dt\n    s = np.fft.ifft(a)\n    npts = int(2 ** (np.log(n) / np.log(2)))\n    s = s[:npts]\n    return s\n", "R-INV-DT"),
-    B("inv-no-flip-signal", F, "    a[n // 2 + 1:] = np.flip(np.conj(fas[1:]), axis=0)\n    a /= dt\n    s = np.fft.ifft(a)\n    npts = int(2 ** (np.log(n) / np.log(2)))\n    s = s[:npts]\n    if stype",
-      "    a[n // 2 + 1:] = np.conj(fas[1:])\n    a /= dt\n    s = np.fft.ifft(a)\n    npts = int(2 ** (np.log(n) / np.log(2)))\n    s = s[:npts]\n    if stype", "R-INV-DT"),
-    B("inv-times-dt", F, "    a /= dt\n    s = np.fft.ifft(a)\n    npts = int(2 ** (np.log(n) / np.log(2)))\n    s = s[:npts]\n    return s\n", "    a *= dt\n    s = np.fft.ifft(a)\n    npts = int(2 ** (np.log(n) / np.log(2)))\n    s = s[:npts]\n    return s\n", "R-INV-DT"),
-    B("inv-includes-bin0", F, "    a[1:n // 2] = fas[1:]\n    a[n // 2 + 1:] = np.flip(np.conj(fas[1:]), axis=0)\n    a /= dt\n    s = np.fft.ifft(a)\n    npts = int(2 ** (np.log(n) / np.log(2)))\n    s = s[:npts]\n    return s\n",
-      "    a[0:n // 2] = fas[0:]\n    a[n // 2 + 1:] = np.flip(np.conj(fas[1:]), axis=0)\n    a /= dt\n    s = np.fft.ifft(a)\n    npts = int(2 ** (np.log(n) / np.log(2)))\n    s = s[:npts]\n    return s\n", "R-INV-DT"),
+    B("inv-no-conj-values", F, "    a[n // 2 + 1:] = np.flip(np.conj(fas[1:]), axis=0)\n    a /= dt\n    s = np.fft.ifft(a)\n    npts = n  # all n points (int(2 ** (np.log(n) / np.log(2))) rounds down to n - 1 for some n, e.g. 14)\n    s = s[:npts]\n    return s\n",
+      "    a[n // 2 + 1:] = np.flip(fas[1:], axis=0)\n    a /= dt\n    s = np.fft.ifft(a)\n    npts = n  # all n points (int(2 ** (np.log(n) / np.log(2))) rounds down to n - 1 for some n, e.g. 14)\n    s = s[:npts]\n    return s\n", "R-INV-DT"),
+    B("inv-no-flip-signal", F, "    a[n // 2 + 1:] = np.flip(np.conj(fas[1:]), axis=0)\n    a /= dt\n    s = np.fft.ifft(a)\n    npts = n  # all n points (int(2 ** (np.log(n) / np.log(2))) rounds down to n - 1 for some n, e.g. 14)\n    s = s[:npts]\n    if stype",
+      "    a[n // 2 + 1:] = np.conj(fas[1:])\n    a /= dt\n    s = np.fft.ifft(a)\n    npts = n  # all n points (int(2 ** (np.log(n) / np.log(2))) rounds down to n - 1 for some n, e.g. 14)\n    s = s[:npts]\n    if stype", "R-INV-DT"),
+    B("inv-times-dt", F, "    a /= dt\n    s = np.fft.ifft(a)\n    npts = n  # all n points (int(2 ** (np.log(n) / np.log(2))) rounds down to n - 1 for some n, e.g. 14)\n    s = s[:npts]\n    return s\n", "    a *= dt\n    s = np.fft.ifft(a)\n    npts = n  # all n points (int(2 ** (np.log(n) / np.log(2))) rounds down to n - 1 for some n, e.g. 14)\n    s = s[:npts]\n    return s\n", "R-INV-DT"),
+    B("inv-includes-bin0", F, "    a[1:n // 2] = fas[1:]\n    a[n // 2 + 1:] = np.flip(np.conj(fas[1:]), axis=0)\n    a /= dt\n    s = np.fft.ifft(a)\n    npts = n  # all n points (int(2 ** (np.log(n) / np.log(2))) rounds down to n - 1 for some n, e.g. 14)\n    s = s[:npts]\n    return s\n",
+      "    a[0:n // 2] = fas[0:]\n    a[n // 2 + 1:] = np.flip(np.conj(fas[1:]), axis=0)\n    a /= dt\n    s = np.fft.ifft(a)\n    npts = n  # all n points (int(2 ** (np.log(n) / np.log(2))) rounds down to n - 1 for some n, e.g. 14)\n    s = s[:npts]\n    return s\n", "R-INV-DT"),
+    B("inv-float-roundtrip-truncation", F, "    npts = n  # all n points (int(2 ** (np.log(n) / np.log(2))) rounds down to n - 1 for some n, e.g. 14)\n    s = s[:npts]\n    return s\n",
+      "    npts = int(2 ** (np.log(n) / np.log(2)))\n    s = s[:npts]\n    return s\n", "R-INV-DT"),
+    B("inv-drops-last", F, "    npts = n  # all n points (int(2 ** (np.log(n) / np.log(2))) rounds down to n - 1 for some n, e.g. 14)\n    s = s[:npts]\n    return s\n",
+      "    npts = n - 1\n    s = s[:npts]\n    return s\n", "R-INV-DT"),
     B("inv-stype-swapped", F, "    if stype == 'signal':\n        return Signal(s, dt)\n    else:\n        return AccSignal(s, dt)\n", "    if stype == 'signal':\n        return AccSignal(s, dt)\n    else:\n        return Signal(s, dt)\n", "R-INV-DT"),
     B("max-period-complex", IM, "    max_index = np.argmax(np.abs(asig.fa_spectrum))\n", "    max_index = np.argmax(asig.fa_spectrum)\n", "R-CPLX-ORDER"),
     B("max-period-real-part", IM, "    max_index = np.argmax(np.abs(asig.fa_spectrum))\n", "    max_index = np.argmax(np.real(asig.fa_spectrum))\n", "R-CPLX-ORDER"),
@@ -46,6 +50,6 @@ VARIANTS = [
     T("obj-dt-first", S, "        self._fa_spectrum = fa[range(points)] * self.dt\n", "        self._fa_spectrum = self.dt * fa[range(points)]\n"),
     T("obj-grid-rearranged", S, "        self._fa_freqs = np.arange(points) / (2 * points * self.dt)\n", "        self._fa_freqs = np.arange(points) / points / self.dt / 2\n"),
     T("max-period-builtin-abs", IM, "    max_index = np.argmax(np.abs(asig.fa_spectrum))\n", "    max_index = np.argmax(asig.fa_spectrum_abs)\n"),
-    T("inv-conj-method", F, "    a[n // 2 + 1:] = np.flip(np.conj(fas[1:]), axis=0)\n    a /= dt\n    s = np.fft.ifft(a)\n    npts = int(2 ** (np.log(n) / np.log(2)))\n    s = s[:npts]\n    return s\n",
-      "    a[n // 2 + 1:] = np.flip(fas[1:].conj(), axis=0)\n    a = a / dt\n    s = np.fft.ifft(a)\n    npts = int(2 ** (np.log(n) / np.log(2)))\n    s = s[:npts]\n    return s\n"),
+    T("inv-conj-method", F, "    a[n // 2 + 1:] = np.flip(np.conj(fas[1:]), axis=0)\n    a /= dt\n    s = np.fft.ifft(a)\n    npts = n  # all n points (int(2 ** (np.log(n) / np.log(2))) rounds down to n - 1 for some n, e.g. 14)\n    s = s[:npts]\n    return s\n",
+      "    a[n // 2 + 1:] = np.flip(fas[1:].conj(), axis=0)\n    a = a / dt\n    s = np.fft.ifft(a)\n    npts = n  # all n points (int(2 ** (np.log(n) / np.log(2))) rounds down to n - 1 for some n, e.g. 14)\n    s = s[:npts]\n    return s\n"),
 ]
